@@ -47,6 +47,72 @@ where
     Ok(Outcome { items, reencoded: if can_re { Some(re.to_vec()) } else { None }, leftover: buf.len() })
 }
 
+// A frame whose Recon BODY is corrupt (its header and length field are intact) followed by a good frame: whatever the cuts,
+// the corrupt frame is reported as ONE error and the good frame is then decoded exactly (the stream is not desynchronised).
+fn check_resync<D>(name: &str, corrupt: &[u8], good: &[u8], mk: &dyn Fn() -> D, rep: &mut Report)
+where
+    D: Decoder,
+    D::Item: Debug,
+    D::Error: Debug,
+{
+    if rep.mode != Mode::Fragmentation {
+        return;
+    }
+    let mut stream = corrupt.to_vec();
+    stream.extend_from_slice(good);
+    let expected: Vec<String> = {
+        let mut d = mk();
+        let mut b = BytesMut::from(good);
+        match d.decode(&mut b) {
+            Ok(Some(item)) => vec![format!("{:?}", item)],
+            ow => {
+                rep.resync.insert(name.to_string(), Err(format!("{name}: the good frame {:?} does not decode: {:?}", good, ow)));
+                return;
+            }
+        }
+    };
+    let mut evals = 0usize;
+    let run = |chunks: &[&[u8]]| -> Result<(usize, Vec<String>, usize), String> {
+        let mut dec = mk();
+        let mut buf = BytesMut::new();
+        let mut errors = 0;
+        let mut items = vec![];
+        for c in chunks {
+            buf.extend_from_slice(c);
+            let mut guard = 0;
+            loop {
+                guard += 1;
+                if guard > 10_000 {
+                    return Err("decoder does not terminate".into());
+                }
+                match dec.decode(&mut buf) {
+                    Ok(Some(item)) => items.push(format!("{:?}", item)),
+                    Ok(None) => break,
+                    Err(_) => errors += 1,
+                }
+            }
+        }
+        Ok((errors, items, buf.len()))
+    };
+    for i in 0..=stream.len() {
+        for j in i..=stream.len() {
+            evals += 1;
+            let r = catch_unwind(AssertUnwindSafe(|| run(&[&stream[..i], &stream[i..j], &stream[j..]])));
+            let bad = match r {
+                Ok(Ok((1, items, 0))) if items == expected => None,
+                Ok(Ok((e, items, left))) => Some(format!("{e} errors, decoded {:?}, {left} bytes left; expected one error and then {:?}", items, expected)),
+                Ok(Err(e)) => Some(e),
+                Err(_) => Some("decoder panicked".to_string()),
+            };
+            if let Some(b) = bad {
+                rep.resync.insert(name.to_string(), Err(format!("{name}: corrupt-body frame {:?} followed by {:?}, cut at {i},{j}: {b}", corrupt, good)));
+                return;
+            }
+        }
+    }
+    rep.resync.insert(name.to_string(), Ok(evals));
+}
+
 #[derive(Clone, Copy, PartialEq)]
 enum Mode {
     Fragmentation,
@@ -61,6 +127,7 @@ struct Report {
     progress: Option<std::path::PathBuf>,
     frag_fail: std::collections::BTreeMap<String, String>,
     robust_fail: std::collections::BTreeMap<String, String>,
+    resync: std::collections::BTreeMap<String, Result<usize, String>>,
     codecs: Vec<String>,
 }
 
@@ -269,7 +336,7 @@ fn codec_robustness_child() {
     };
     let skip: usize = std::env::var("VERIF_BX_SKIP").ok().and_then(|s| s.parse().ok()).unwrap_or(0);
     std::panic::set_hook(Box::new(|_| {}));
-    let mut rep = Report { mode: Mode::Robustness { skip }, evaluations: 0, variant: 0, progress: Some(progress.clone()), frag_fail: Default::default(), robust_fail: Default::default(), codecs: vec![] };
+    let mut rep = Report { mode: Mode::Robustness { skip }, evaluations: 0, variant: 0, progress: Some(progress.clone()), frag_fail: Default::default(), robust_fail: Default::default(), resync: Default::default(), codecs: vec![] };
     run_all(&mut rep);
     let fails: Vec<String> = rep.robust_fail.iter().map(|(k, v)| format!("{k}\t{v}")).collect();
     let _ = std::fs::write(&progress, format!("done {} {}\n{}", rep.variant, rep.evaluations, fails.join("\n")));
@@ -282,7 +349,7 @@ fn codec_contract() {
     }
     let prev = std::panic::take_hook();
     std::panic::set_hook(Box::new(|_| {}));
-    let mut rep = Report { mode: Mode::Fragmentation, evaluations: 0, variant: 0, progress: None, frag_fail: Default::default(), robust_fail: Default::default(), codecs: vec![] };
+    let mut rep = Report { mode: Mode::Fragmentation, evaluations: 0, variant: 0, progress: None, frag_fail: Default::default(), robust_fail: Default::default(), resync: Default::default(), codecs: vec![] };
     run_all(&mut rep);
     // robustness in child processes
     let progress = std::env::temp_dir().join(format!("verif_bx_messages_progress_{}", std::process::id()));
@@ -321,7 +388,7 @@ fn codec_contract() {
     let _ = std::fs::remove_file(&progress);
     rep.evaluations += robust_evals;
     std::panic::set_hook(prev);
-    println!("BX-SAMPLE RawRequestMessage / RawResponseMessage of swimos_messages; streams of 1 and 2 messages, every 2-chunk cut, every 3-chunk cut of streams <= 48 bytes, prefixes/tag/small byte corruptions");
+    println!("BX-SAMPLE 14 codec pairs of swimos_agent_protocol; streams of 1 and 2 messages, every 2-chunk cut, every 3-chunk cut of streams <= 48 bytes, prefixes/tag/small byte corruptions");
     let mut failed = false;
     let slug = |c: &str| c.replace(|ch: char| !ch.is_ascii_alphanumeric(), "_");
     for c in &rep.codecs {
@@ -336,6 +403,15 @@ fn codec_contract() {
             None => println!("BX-OBL codecs::{}::corrupt_input_gives_error_not_panic_or_hang ok evaluations={} distinct={}", slug(c), robust_evals / rep.codecs.len(), robust_evals / rep.codecs.len()),
             Some(w) => {
                 println!("BX-FAIL codecs::{}::corrupt_input_gives_error_not_panic_or_hang witness={w}", slug(c));
+                failed = true;
+            }
+        }
+    }
+    for (c, r) in &rep.resync {
+        match r {
+            Ok(n) => println!("BX-OBL codecs::{}::corrupt_body_does_not_desynchronise_the_stream ok evaluations={n} distinct={n}", slug(c)),
+            Err(w) => {
+                println!("BX-FAIL codecs::{}::corrupt_body_does_not_desynchronise_the_stream witness={w}", slug(c));
                 failed = true;
             }
         }
